@@ -318,6 +318,6 @@ def run_units(units, pid, tier):
             if it["kind"] == "fn":
                 extraction.append({"unit": u, "fn": "%s :: %s :: %s" % (it["file"], it["container"], it["name"]),
                                    "sha256": it["sha256"][:16], "rewrites": it["rewrites"], "span": it["span"]})
-        samples += ["%s (real code: %s)" % (o["id"], o.get("real_code")) for o in r["obligations"][:3]]
+        samples += ["%s (real code: %s)" % (o["id"], o.get("real_code")) for o in r["obligations"] if o.get("real_code")][:4]
     return {"obligations": obligations, "cmds": cmds, "notes": notes, "assumptions": assumptions,
             "samples": samples, "extraction": extraction}
